@@ -7,6 +7,9 @@
 // (the marker byte never is); end-of-sequence counts exactly when nothing forced is pending and the state is accepting, and ends
 // the count either way.
 use super::*;
+// explicit imports: the harness must not depend on which names the real module happens to import
+#[allow(unused_imports)]
+use ::toktrie::{TokTrie, TokenId};
 
 const V: usize = 4;
 const EOS_T: TokenId = 3;
